@@ -78,7 +78,10 @@ def nc_view(fn):
                     h = hashlib.sha1(repr(np.asarray(a).tolist()).encode()).hexdigest()[:16]
             except Exception as e:  # pragma: no cover
                 h = "unreadable:" + type(e).__name__
-            out["v"][k] = dict(dims=list(v.dimensions), dtype=str(v.dtype), attrs={a: _attr(v.getncattr(a)) for a in v.ncattrs()}, sha=h)
+            # shape: the current length of every dimension of the variable (an unlimited dimension that got longer is a
+            # change to every variable on it)
+            out["v"][k] = dict(dims=list(v.dimensions), shape=[int(n) for n in v.shape], dtype=str(v.dtype),
+                               attrs={a: _attr(v.getncattr(a)) for a in v.ncattrs()}, sha=h)
         return out
     finally:
         nc.close()
@@ -153,7 +156,28 @@ def _features(f):
                for c in f.constructs.filter_by_data(todict=True).values())
     bases = [str(c.nc_get_variable(None) or c.get_property("standard_name", "")) for c in f.constructs.filter_by_data(todict=True).values()]
     ext = [c.nc_get_variable(None) for c in f.cell_measures(todict=True).values() if c.nc_get_external()] if hasattr(f, "cell_measures") else []
-    return dict(ext=ext, bases=bases, groups=list(f.nc_variable_groups()), ft_global="featureType" in ga, ft=ft, kind=type(f).__name__,
+    # dimension coordinates that will be named after the netCDF dimension of their axis (no variable name, no standard name)
+    anon = []
+    try:
+        da = f.constructs.data_axes()
+        for k, c in f.dimension_coordinates(todict=True).items():
+            if c.nc_get_variable(None) is None and c.get_property("standard_name", None) is None:
+                d = f.domain_axes(todict=True)[da[k][0]].nc_get_dimension(None)
+                if d is not None:
+                    anon.append(d)
+    except Exception:
+        pass
+    # scalar parameters of formula-terms references (Data values, written by _write_scalar_data)
+    scalar_terms = []
+    try:
+        for r in f.coordinate_references(todict=True).values():
+            cc = r.coordinate_conversion
+            if cc.get_parameter("standard_name", None) is None:
+                continue
+            scalar_terms += [t for t, v in cc.parameters().items() if v is not None and t not in ("standard_name", "computed_standard_name")]
+    except Exception:
+        pass
+    return dict(scalar_terms=scalar_terms, anon_dc=anon, ext=ext, bases=bases, groups=list(f.nc_variable_groups()), ft_global="featureType" in ga, ft=ft, kind=type(f).__name__,
                 domain_ancillaries=has_da, formula_terms=has_ft_ref, strings=bool(strs),
                 props={k: json.dumps(FP._pval(v), default=str) for k, v in f.properties().items()},
                 ga={k: (None if v is None else json.dumps(FP._pval(v), default=str)) for k, v in ga.items()})
